@@ -1725,7 +1725,7 @@ func toStatementApi(s *oc.Statement) *api.Statement {
 				return nil
 			}
 			return &api.CommunityAction{
-				Type:        api.CommunityAction_Type(oc.BgpSetCommunityOptionTypeToIntMap[oc.BgpSetCommunityOptionType(s.Actions.BgpActions.SetExtCommunity.Options)]),
+				Type:        toAPICommunityActionType(oc.BgpSetCommunityOptionType(s.Actions.BgpActions.SetExtCommunity.Options)),
 				Communities: s.Actions.BgpActions.SetExtCommunity.SetExtCommunityMethod.CommunitiesList,
 			}
 		}(),
@@ -1734,7 +1734,7 @@ func toStatementApi(s *oc.Statement) *api.Statement {
 				return nil
 			}
 			return &api.CommunityAction{
-				Type:        api.CommunityAction_Type(oc.BgpSetCommunityOptionTypeToIntMap[s.Actions.BgpActions.SetLargeCommunity.Options]),
+				Type:        toAPICommunityActionType(s.Actions.BgpActions.SetLargeCommunity.Options),
 				Communities: s.Actions.BgpActions.SetLargeCommunity.SetLargeCommunityMethod.CommunitiesList,
 			}
 		}(),
@@ -1790,6 +1790,20 @@ func toStatementApi(s *oc.Statement) *api.Statement {
 		Conditions: cs,
 		Actions:    as,
 	}
+}
+
+// toAPICommunityActionType maps by name: the oc options count from add=0,
+// api.CommunityAction_Type from TYPE_UNSPECIFIED=0.
+func toAPICommunityActionType(t oc.BgpSetCommunityOptionType) api.CommunityAction_Type {
+	switch t {
+	case oc.BGP_SET_COMMUNITY_OPTION_TYPE_ADD:
+		return api.CommunityAction_TYPE_ADD
+	case oc.BGP_SET_COMMUNITY_OPTION_TYPE_REMOVE:
+		return api.CommunityAction_TYPE_REMOVE
+	case oc.BGP_SET_COMMUNITY_OPTION_TYPE_REPLACE:
+		return api.CommunityAction_TYPE_REPLACE
+	}
+	return api.CommunityAction_TYPE_UNSPECIFIED
 }
 
 func toConfigMatchSetOption(a api.MatchSet_Type) (oc.MatchSetOptionsType, error) {
